@@ -47,9 +47,10 @@ def gen_calendars(rnd, tier):
     # events the reader has no instruction for (a REPLY with a status other than 2.x / 5.x, METHOD:ADD, REFRESH, COUNTER) among others
     rpl3 = cal(b'REPLY', [(b'm-a', [b'REQUEST-STATUS:3.1;Invalid property value']), (b'm-b', [b'REQUEST-STATUS:2.0;Success']), (b'm-c', [b'REQUEST-STATUS:2.0;Success'])])
     rpl4 = cal(b'REPLY', [(b'm-a', [b'REQUEST-STATUS:2.0;Success']), (b'm-b', []), (b'm-c', [b'REQUEST-STATUS:4.0;Event conflict']), (b'm-d', [b'REQUEST-STATUS:5.1;Service unavailable'])])
+    rpl5 = cal(b'REPLY', [(b'm-a', [b'REQUEST-STATUS:2.0;Success']), (b'm-b', [b'REQUEST-STATUS:3.1;Invalid property value'])])       # the last event is one without instruction
     addc = cal(b'ADD', [(b'm-x', [b'SUMMARY:echo x', b'DTSTART:20300101T000000Z'])])
     cntr = cal(b'COUNTER', [(b'm-y', [b'SUMMARY:echo y', b'DTSTART:20300101T000000Z']), (b'm-z', [b'SUMMARY:echo z', b'DTSTART:20300102T000000Z'])])
-    combos = [[pub1, pub2], [rpl1, rpl2, rpl1], [pub1, canc, pub2], [rpl2, rpl1], [canc, canc, pub1], [rpl3], [rpl4, rpl1], [addc, pub1], [pub2, cntr, pub1], [rpl3, rpl4]]
+    combos = [[pub1, pub2], [rpl1, rpl2, rpl1], [pub1, canc, pub2], [rpl2, rpl1], [canc, canc, pub1], [rpl3], [rpl4, rpl1], [addc, pub1], [pub2, cntr, pub1], [rpl3, rpl4], [rpl3, pub1], [rpl4, pub2, canc], [rpl5, pub1], [rpl5, pub2, rpl5, canc]]
     seps = [b'', b'\n', b'\r\n', b'X-JUNK:between\n', b'\n\n \n', b'END:VCALENDAR\n', b'SUMMARY:stray\n']
     k = 0
     for combo in combos:
